@@ -127,7 +127,8 @@ def populated(hist, kp):
     return st
 
 
-EXC_CODES = {"TypeError": 1, "NoSuchRecording": 2, "AssertionError": 3, "IndexError": 4}
+EXC_CODES = {"TypeError": 1, "NoSuchRecording": 2, "AssertionError": 3, "IndexError": 4, "KeyError": 5,
+             "AttributeError": 6}
 
 
 class _Script(object):
